@@ -42,7 +42,9 @@ def main():
             "needs_to_manifest": meta.get("needs_to_manifest"),
             "origin": "written by a fresh sub-agent that saw only the property text and a scratch worktree of /repo (nothing from /verif)",
             "confirmed_by_me": {
-                "how": "tools_confirm_mutation.sh in a scratch worktree of /repo HEAD (removed afterwards): demo on clean tree, demo with patch, full existing suite with patch (pytest -n 8 jumanji)",
+                "how": "tools_confirm_mutation.sh in a scratch worktree of /repo HEAD (removed afterwards): demo on clean tree, demo with patch, existing tests with patch (pytest -n 8): "
+                       + (re.search(r"test paths: (.*)", conf).group(1).strip() if re.search(r"test paths: (.*)", conf) else "jumanji")
+                       + " (an environment-local patch can only reach the tests of its own package and the package-independent test files; patches to shared modules run the whole suite)",
                 "demo_clean_rc": 0, "demo_mutated_rc": int(re.search(r"demo mutated rc=(\d+)", conf).group(1)),
                 "suite_with_patch": tests.group(1) if tests else None,
                 "new_test_failures": int(tests.group(2)) if tests else None,
